@@ -258,6 +258,14 @@ async def _e2e(loop, entries, now, backend, listonly, tmp, result):
             raise Violation(f"C07/e2e/stat_dir/raised_{type(e).__name__}", dict(error=repr(e)[:200], entries=entries))
         if info["type"] != "dir":
             raise Violation("C07/e2e/stat_dir/type", dict(got=info, entries=[e_[:2] for e_ in entries]))
+        # ... and of its parent, spelled with '..'
+        for spelled in ("d/..", ".."):
+            try:
+                info = await c.stat(spelled)
+            except Exception as e:  # noqa
+                raise Violation(f"C07/e2e/stat_dotdot/raised_{type(e).__name__}", dict(path=spelled, error=repr(e)[:200]))
+            if info["type"] != "dir":
+                raise Violation("C07/e2e/stat_dotdot/type", dict(path=spelled, got=info))
         # stat of single entries (MLST, or the LIST fallback inside stat())
         for name, (typ, size, mtime) in list(truth.items())[:4]:
             if listonly and name[0].isspace():
